@@ -12,6 +12,7 @@ import (
 	_ "verif/harness/c09"
 	_ "verif/harness/c12"
 	_ "verif/harness/c13"
+	_ "verif/harness/c14"
 	_ "verif/harness/c15"
 	_ "verif/harness/c16"
 )
